@@ -2,6 +2,7 @@
     Proved by symbolic execution of the chain go2v extracts from attribute_query.go, for all queries, metadata, user
     records and key states. *)
 From Saml Require Import Base.Bytes Idp.FactTypes Gen.Facts Idp.Sso Idp.Callback Core.Attrs Idp.AttrQuery.
+From Saml Require Import Idp.BuilderTypes Idp.Builder Idp.BuiltDoc.
 From Saml Require Import Xml.SchemaTypes Xml.Schema Gen.Schema Xml.SamlSpec.
 
 Definition cur_atags : list atag := Eval vm_compute in map atag_of attrquery_steps.
@@ -68,7 +69,23 @@ Proof. exact attrquery_fail_closed_facts. Qed.
 Theorem C12_schema : forallb (conforms xml_schema) saml_spec = true.
 Proof. exact saml_spec_conforms. Qed.
 
+(** the answer itself, from the source of makeAttributeQueryResponse: the query ID on the response and in the subject
+    confirmation, the querying party as the only audience, the subject's user name, no destination, recipient or
+    authentication statement *)
+Theorem C12_built_response : forall reqid issuer sp email full given sur userid username id1 id2 rest issue until,
+  exists d, built_value "makeAttributeQueryResponse" None
+              [DStr reqid; DStr issuer; DStr sp; attributes_rec email full given sur userid username []; DNil; DStr (b "f"); DNil] (id1 :: id2 :: rest) issue until = Some (d, rest) /\
+    at_ d ["InResponseTo"%string] = Some (DStr reqid) /\ dget d (sc_data ++ [PField "InResponseTo"]) = Some (DStr reqid) /\
+    at_ d ["Destination"%string] = None /\ dget d (sc_data ++ [PField "Recipient"]) = None /\
+    at_ d ["Issuer"; "Text"]%string = Some (DStr issuer) /\ at_ d ["Assertion"; "Issuer"; "Text"]%string = Some (DStr issuer) /\
+    dget d [PField "Assertion"; PField "Conditions"; PField "AudienceRestriction"; PIndex 0; PField "Audience"] = Some (DList [DStr sp]) /\
+    at_ d ["Assertion"; "Subject"; "NameID"; "Text"]%string = Some (DStr username) /\
+    at_ d ["Assertion"; "AuthnStatement"]%string = None /\
+    at_ d ["Assertion"; "Conditions"; "NotOnOrAfter"]%string = Some (DStr until).
+Proof. exact attrquery_response_fields. Qed.
+
 Print Assumptions C12_answered.
 Print Assumptions C12_filter.
 Print Assumptions C12_fail_facts.
 Print Assumptions C12_schema.
+Print Assumptions C12_built_response.
